@@ -272,6 +272,9 @@ type c12LT struct {
 	scale   uint64
 	skind   int // how Parameters.Scale is built: 0 params.NewScale(scale) (bgv: modulus t attached; ckks: rlwe.NewScale),
 	// 1 params.DefaultScale() (scale = its value), 2 rlwe.NewScale(scale) WITHOUT modulus (bgv: scale may be >= t)
+	alias    map[int]int // k -> k0 < k: diagonal k is given as THE SAME slice object as diagonal k0 (equal contents)
+	short    []int       // non-nil: short[k] > 0: diagonal k is given with that many entries only (the rest is zero)
+	raw      [][]uint64  // bgv, non-nil: the diagonals are given as []uint64 with these UNREDUCED entries (diag = raw mod t)
 	scaleBig *big.Int // ckks, non-nil: the scale (e.g. a product of two primes of the chain, far above 2^64)
 	encBig   bool     // ckks: encode the diagonals with the arbitrary-precision encoder (prec 90: embedArbitrary)
 	logCols int
@@ -326,31 +329,56 @@ func (x *c12Ctx) dims(logCols int) ring.Dimensions {
 	return ring.Dimensions{Rows: 0, Cols: logCols}
 }
 
+// c12Slices: the slices the caller hands over for the diagonals: aliases share ONE slice object, short diagonals are
+// allocated with exactly their length (no hidden capacity)
+func c12Slices[T any](lt *c12LT, conv func(k, i int) T) [][]T {
+	sl := make([][]T, len(lt.idx))
+	for k := range lt.idx {
+		if a, ok := lt.alias[k]; ok {
+			sl[k] = sl[a]
+			continue
+		}
+		n := len(lt.diag[k])
+		if lt.short != nil && lt.short[k] > 0 {
+			n = lt.short[k]
+		}
+		sl[k] = make([]T, n)
+		for i := range sl[k] {
+			sl[k][i] = conv(k, i)
+		}
+	}
+	return sl
+}
+
+func c12BuildBGV[T bgv.Integer](x *c12Ctx, lt *c12LT, sl [][]T) (b c12Built) {
+	dg := bgvlt.Diagonals[T]{}
+	for k, d := range lt.idx {
+		dg[d] = sl[k]
+	}
+	p := bgvlt.Parameters{DiagonalsIndexList: dg.DiagonalsIndexList(), LevelQ: lt.level, LevelP: lt.levelP,
+		Scale: x.ltScale(lt), LogDimensions: x.dims(lt.logCols), LogBabyStepGiantStepRatio: lt.ratio}
+	l := bgvlt.NewLinearTransformation(x.bp, p)
+	if err := bgvlt.Encode(x.becd, dg, l); err != nil {
+		b.encErr = true
+	}
+	b.common = clt.LinearTransformation(l)
+	b.adv = l.GaloisElements(x.bp)
+	b.advPkg = clt.GaloisElements(x.bp, p.DiagonalsIndexList, 1<<lt.logCols, lt.ratio)
+	return
+}
+
 // build allocates and encodes through the scheme wrappers.
 func (x *c12Ctx) build(lt *c12LT) (b c12Built) {
 	if x.scheme == "bgv" {
-		dg := bgvlt.Diagonals[int64]{}
-		for k, d := range lt.idx {
-			dg[d] = lt.diag[k]
+		if lt.raw != nil {
+			return c12BuildBGV(x, lt, c12Slices(lt, func(k, i int) uint64 { return lt.raw[k][i] }))
 		}
-		p := bgvlt.Parameters{DiagonalsIndexList: dg.DiagonalsIndexList(), LevelQ: lt.level, LevelP: lt.levelP,
-			Scale: x.ltScale(lt), LogDimensions: x.dims(lt.logCols), LogBabyStepGiantStepRatio: lt.ratio}
-		l := bgvlt.NewLinearTransformation(x.bp, p)
-		if err := bgvlt.Encode(x.becd, dg, l); err != nil {
-			b.encErr = true
-		}
-		b.common = clt.LinearTransformation(l)
-		b.adv = l.GaloisElements(x.bp)
-		b.advPkg = clt.GaloisElements(x.bp, p.DiagonalsIndexList, 1<<lt.logCols, lt.ratio)
-		return
+		return c12BuildBGV(x, lt, c12Slices(lt, func(k, i int) int64 { return lt.diag[k][i] }))
 	}
 	dg := ckkslt.Diagonals[float64]{}
+	sl := c12Slices(lt, func(k, i int) float64 { return float64(lt.diag[k][i]) })
 	for k, d := range lt.idx {
-		f := make([]float64, len(lt.diag[k]))
-		for i := range f {
-			f[i] = float64(lt.diag[k][i])
-		}
-		dg[d] = f
+		dg[d] = sl[k]
 	}
 	p := ckkslt.Parameters{DiagonalsIndexList: dg.DiagonalsIndexList(), LevelQ: lt.level, LevelP: lt.levelP,
 		Scale: x.ltScale(lt), LogDimensions: x.dims(lt.logCols), LogBabyStepGiantStepRatio: lt.ratio}
@@ -420,6 +448,7 @@ type c12Case struct {
 	logCols int
 	v       []int64
 	lts     []*c12LT
+	vraw    []uint64 // bgv, non-nil: the input is encoded from these UNREDUCED uint64 values (v = vraw mod t)
 	pkgKeys bool // the Galois keys come ONLY from the package-level GaloisElements(params, ltparams)
 	cont    bool // run the continuation probes on every output
 }
@@ -440,6 +469,9 @@ func (x *c12Ctx) describe(cs *c12Case) string {
 	fmt.Fprintf(&sb, " v=%s", c12I64(cs.v))
 	for _, lt := range cs.lts {
 		fmt.Fprintf(&sb, " LT ratio=%d lvl=%d scale=%s levelp=%d skind=%d encbig=%d", lt.ratio, lt.level, lt.scaleInt().String(), lt.levelP, lt.skind, b2i(lt.encBig))
+		if lt.alias != nil || lt.short != nil || lt.raw != nil {
+			fmt.Fprintf(&sb, " given=alias%v,short%v,raw%d", strings.ReplaceAll(fmt.Sprint(lt.alias), " ", ";"), strings.ReplaceAll(fmt.Sprint(lt.short), " ", ";"), b2i(lt.raw != nil))
+		}
 		for k, d := range lt.idx {
 			fmt.Fprintf(&sb, " D %d %s", d, c12I64(lt.diag[k]))
 		}
@@ -495,6 +527,17 @@ func (x *c12Ctx) runCase(c *Ctx, cs *c12Case) {
 	keys, reqs, missing := x.keysFor(adv, cs.lts[0].levelP)
 	ev := x.schemeEval(keys)
 	ct := x.encrypt(cs.v, cs.ctLevel, cs.ctScale, cs.logCols)
+	if cs.vraw != nil {
+		pt := bgv.NewPlaintext(x.bp, cs.ctLevel)
+		pt.Scale = x.bp.NewScale(cs.ctScale)
+		if err := x.becd.Encode(cs.vraw, pt); err != nil {
+			panic(err)
+		}
+		var err error
+		if ct, err = x.enc.EncryptNew(pt); err != nil {
+			panic(err)
+		}
+	}
 	commons := make([]clt.LinearTransformation, len(cs.lts))
 	for i := range built {
 		commons[i] = built[i].common
@@ -943,6 +986,149 @@ func c12BigScales(c *Ctx, x *c12Ctx) {
 	}
 }
 
+// c12Round6: how the caller may legally GIVE the diagonals.
+//   shared   several diagonal indexes hold ONE slice object (same backing array), in the same and in different
+//            giant steps (indexes i, i+n/4, i+n/2, ...), non-constant contents
+//   mixed    diagonals of different lengths in one map: a few entries, one row (bgv), half a row, full — the encoders
+//            zero-pad (with BSGS only diagonals of the first giant step: the others are rotated row by row)
+//   raw      bgv: entries given as unreduced uint64 (up to 2^64-1, top bit set, just above multiples of t) and as
+//            int64 of any magnitude and sign; the input vector encoded from unreduced uint64 as well
+// every combination naive / BSGS; matvec value probes (bgv exact per row, ckks 2^-8), trace, level and scale tied.
+func c12Round6(c *Ctx, x *c12Ctx) {
+	L := x.maxLevel()
+	logCols := x.logMaxC
+	cols := 1 << logCols
+	n := x.rows * cols
+	rawU := func() uint64 {
+		switch c.rng.Intn(5) {
+		case 0:
+			return c.rng.U64() | 1<<63
+		case 1:
+			return ^uint64(0) - c.rng.Below(3)
+		case 2:
+			return (2+c.rng.Below(1<<20))*x.t + c.rng.Below(3)
+		case 3:
+			return c.rng.Below(1<<40) | 1<<39
+		}
+		return c.rng.U64()
+	}
+	for _, ratio := range []int{-1, 0, 1, 2} {
+		for variant := 0; variant < 3; variant++ {
+			for rep := 0; rep < c.Scale(2, 6); rep++ {
+				lt := &c12LT{ratio: ratio, level: L, logCols: logCols, levelP: x.rp.MaxLevelP(), scale: x.ctScale(c)}
+				if x.scheme == "ckks" {
+					lt.scale = 1 << 40
+				}
+				randDiag := func() []int64 {
+					d := make([]int64, n)
+					for i := range d {
+						if x.scheme == "bgv" {
+							d[i] = int64(c.rng.Below(x.t))
+						} else {
+							d[i] = int64(c.rng.Intn(9)) - 4
+						}
+					}
+					return d
+				}
+				cs := &c12Case{ctLevel: L, ctScale: x.ctScale(c), logCols: logCols, v: x.randVec(c, logCols), mode: []string{"single", "new"}[rep%2], outLvl: L}
+				switch variant {
+				case 0: // shared slice objects
+					base := c.rng.Intn(cols / 4)
+					lt.idx = []int{base, base + cols/4, base + cols/2, (base + 1) % cols, base + cols/4 + 2}
+					if rep%2 == 1 {
+						lt.idx = append(lt.idx, base+3*cols/4, (base+2)%cols)
+					}
+					lt.alias = map[int]int{}
+					d0 := randDiag()
+					for k := range lt.idx {
+						switch {
+						case k == 0:
+							lt.diag = append(lt.diag, d0)
+						case k <= 2 || k == 5: // the same object under indexes a quarter / half / three quarters of a row apart
+							lt.diag = append(lt.diag, d0)
+							lt.alias[k] = 0
+						case k == 4: // ... and a second shared object, next to its twin
+							lt.diag = append(lt.diag, lt.diag[3])
+							lt.alias[4] = 3
+						default:
+							lt.diag = append(lt.diag, randDiag())
+						}
+					}
+				case 1: // mixed lengths
+					lt.idx = []int{0, 1, 2, 3}
+					if rep%2 == 1 {
+						lt.idx = append(lt.idx, cols/2, cols-1)
+					}
+					N1 := cols
+					if ratio >= 0 {
+						N1 = clt.FindBestBSGSRatio(lt.idx, cols, ratio)
+					}
+					lt.short = make([]int, len(lt.idx))
+					lens := []int{1 + c.rng.Intn(cols-1), cols, cols / 2, n, 3}
+					for k, d := range lt.idx {
+						dd := randDiag()
+						if d < N1 && (k+rep)%4 != 3 {
+							ln := lens[(k+rep+variant)%len(lens)]
+							if k == 1 {
+								ln = cols // the first row only (bgv) / the whole row (ckks)
+							}
+							if ln < n {
+								lt.short[k] = ln
+								for i := ln; i < n; i++ {
+									dd[i] = 0
+								}
+							}
+						}
+						lt.diag = append(lt.diag, dd)
+					}
+				default: // unreduced representatives
+					if x.scheme != "bgv" {
+						continue
+					}
+					lt.idx = x.randDiagSet(c, logCols, 2+c.rng.Intn(3))
+					if rep%2 == 0 {
+						for range lt.idx {
+							r := make([]uint64, n)
+							d := make([]int64, n)
+							for i := range r {
+								r[i] = rawU()
+								d[i] = int64(r[i] % x.t)
+							}
+							lt.raw = append(lt.raw, r)
+							lt.diag = append(lt.diag, d)
+						}
+						cs.vraw = make([]uint64, n)
+						for i := range cs.vraw {
+							cs.vraw[i] = rawU()
+							cs.v[i] = int64(cs.vraw[i] % x.t)
+						}
+					} else {
+						for range lt.idx {
+							d := make([]int64, n)
+							for i := range d {
+								switch c.rng.Intn(4) {
+								case 0:
+									d[i] = -int64(c.rng.Below(1 << 62))
+								case 1:
+									d[i] = math.MinInt64 + int64(c.rng.Below(3))
+								case 2:
+									d[i] = -int64((1+c.rng.Below(1<<20))*x.t + c.rng.Below(3))
+								default:
+									d[i] = int64(c.rng.Below(1<<63 - 1))
+								}
+							}
+							lt.diag = append(lt.diag, d)
+						}
+					}
+				}
+				cs.lts = []*c12LT{lt}
+				c.Count(fmt.Sprintf("round6:%s:variant%d", x.scheme, variant))
+				x.runCase(c, cs)
+			}
+		}
+	}
+}
+
 // ---------- generators ----------
 
 func (x *c12Ctx) randDiagSet(c *Ctx, logCols int, kind int) []int {
@@ -1065,6 +1251,7 @@ func genC12(c *Ctx) {
 			c12Evals(c, x)
 			c12Scales(c, x)
 			c12PermE2E(c, x)
+			c12Round6(c, x)
 			if scheme == "ckks" {
 				c12BigScales(c, x)
 			}
